@@ -331,7 +331,7 @@ def perturb(spec, rng):
     kind = rng.choice(["path", "path-move", "content", "content", "exec", "target", "message", "message-line", "committer",
                        "timestamp", "timezone", "parents", "revprop-value", "revprop-add", "revprop-remove", "revprop-name",
                        # text-level edge classes: only line structure / sub-second / order changes
-                       "message-terminator", "timestamp-subsecond", "parents-order", "target-backslash", "revprop-terminator"])
+                       "message-terminator", "message-line-end-space", "timestamp-subsecond", "parents-order", "target-backslash", "revprop-terminator"])
     if kind == "path" and leaves:
         p = rng.choice(leaves)
         d, _, b = p.rpartition("/")
@@ -429,6 +429,21 @@ def perturb(spec, rng):
             tip["message"] = m[:i] + rng.choice(["\x0b", "\x0c", "\x1c", "\x85", " "]) + m[i + 1:]
             return "message", "line-separator-kind-only", s
         return None
+    if kind == "message-line-end-space":
+        # only white space at the end of one message line differs (or an empty separator line vs one holding blanks)
+        m = tip["message"]
+        lines = m.split("\n")
+        i = rng.randrange(len(lines))
+        ws = rng.choice([" ", "  ", "\t", " \t"])
+        if lines[i].endswith((" ", "\t")) and rng.random() < 0.5:
+            lines[i] = lines[i].rstrip(" \t")
+        else:
+            lines[i] = lines[i] + ws
+        nm = "\n".join(lines)
+        if nm == m:
+            return None
+        tip["message"] = nm
+        return "message", "white-space-at-line-end-only", s
     if kind == "revprop-terminator" and tip["revprops"]:
         k = rng.choice(sorted(tip["revprops"]))
         v = tip["revprops"][k]
